@@ -161,6 +161,11 @@ def gen_world(rng, nsteps):
                     objs.append(Track('single', ['atom'], [[list(r[:13]) + [0] for r in src]]))
             else:
                 ks = [rng.randrange(len(objs)) for _ in range(rng.choice([1, 2, 2, 3]))]
+                # the SAME source list again, after whatever happened in between (round-4 seed C15-r4m1: many2sql replaced the
+                # databases in the caller's list by their text at that moment; a second derivation from that list was stale)
+                earlier = [x['ks'] for x in ops if x['w'] == 'many']
+                if earlier and rng.random() < 0.5:
+                    ks = list(rng.choice(earlier))
                 ops.append({'w': 'many', 'ks': ks})
                 srcs = []
                 for kk in ks:
@@ -235,6 +240,7 @@ def impl(ctx, c):
             B.check_parse(db, rows, tn='atom')
         objs.append(db)
     steps = []
+    many_lists = {}
     if nfix(c):
         steps.append({'out': 'ok', 'objs': observe(objs)})
     for o in c['ops']:
@@ -245,7 +251,10 @@ def impl(ctx, c):
         elif o['w'] == 'interface':
             r = call(lambda: interface(objs[o['k']]))
         else:
-            r = call(lambda: many2sql([objs[k] for k in o['ks']]))
+            # one list object per distinct choice of sources, passed again when the history derives from the same sources again
+            # (the list is built inside `call`: when an earlier derivation failed, an index may be out of range -- an outcome, not a crash)
+            r = call(lambda: many2sql(many_lists[tuple(o['ks'])] if tuple(o['ks']) in many_lists
+                                      else many_lists.setdefault(tuple(o['ks']), [objs[k] for k in o['ks']])))
         if not is_err(r) and o['w'] != 'modify':
             objs.append(r)
         steps.append({'out': r if is_err(r) else 'ok', 'objs': observe(objs)})
@@ -325,3 +334,393 @@ def distribution(recs):
              'default sources': sum(len(r['case']['objs']) - nfix(r['case']) for r in recs)}
     return {'initial_objects': fixed, 'history_lengths': dict(sorted(nsteps.items())), 'steps_by_kind': dict(sorted(kinds.items())), 'step_outcomes': outs,
             'live_objects_at_end': dict(sorted(nobj.items())), 'objects_by_table_count': classes}
+
+
+# ======================================================================================================================
+# BEGIN manyTie -- translated-code tie: GENERATED many2sql.__init__ / __call__ / convert_input and interface.__init__
+# (Gen/Many.lean, namespace GenM, run by the driver ops genm_* of Driver/ExtMany.lean with the text side GenM.Ext.text)
+# against the REAL code on the same generated inputs; every mismatch is an entry.  Stay inside this block.
+# ======================================================================================================================
+GEN_UNITS = GEN_UNITS + ['many_defaults', 'many_runtime', 'many_convert_input', 'many_init', 'many_call', 'many_interface_init']
+
+
+def genm_many_checks(ctx):
+    import vlib
+    rng = ctx.rng
+
+    def observe_db(db):
+        """a real object -> {'names', 'tabs', 'nModel'} in protocol values"""
+        names = db._get_table_names()
+        return {'names': list(names), 'tabs': [canon(db.c.execute(f'select * from {n}').fetchall()) for n in names], 'nModel': int(db._nModel)}
+
+    def of_driver(m):
+        if isinstance(m, str):
+            return m
+        return {'names': [t['name'] for t in m['tabs']], 'tabs': [t['rows'] for t in m['tabs']], 'nModel': m['nModel']}
+
+    def src_json(db):
+        o = observe_db(db)
+        return {'tabs': [{'name': n, 'rows': r} for n, r in zip(o['names'], o['tabs'])], 'extra': [], 'nModel': o['nModel']}
+
+    def fresh_rows(n):
+        rows = start_table(rng, n)
+        return rows
+
+    def lines_of(rows, endmdl=0):
+        ls = [B.atom_line(r) for r in rows]
+        for _ in range(endmdl):
+            ls.insert(rng.randrange(len(ls) + 1), 'ENDMDL')
+        if rng.random() < 0.3:
+            ls.insert(0, 'REMARK generated')
+        return ls
+
+    def make_obj(n):
+        rows = fresh_rows(n)
+        db = build(rows)
+        if rng.random() < 0.5 and n:       # a pending modification: the derivation must see it
+            c = rng.choice(['x', 'resSeq', 'name', 'chainID'])
+            call(lambda: db.update_column(c, [pv(rng, c) for _ in range(n)]))
+        return db
+
+    lines, real, meta = [], [], []
+
+    def add(op, case, f):
+        r = call(f)
+        real.append(r if is_err(r) else (observe_db(r) if not isinstance(r, (list, dict)) else r))
+        lines.append(dict(case, op=op))
+        meta.append(op)
+
+    BAD = [('tuple', lambda l: tuple(l)), ('none', lambda l: None), ('str', lambda l: 'abc'), ('int', lambda l: 5)]
+    n_init = ctx.scale(60, 500)
+    for k in range(n_init):
+        npdb = rng.choice([1, 1, 2, 2, 3, 4])
+        elems_py, elems_j = [], []
+        for i in range(npdb):
+            u = rng.random()
+            if u < 0.45:
+                db = make_obj(rng.choice([1, 3, 6]))
+                elems_py.append(db)
+                elems_j.append({'obj': src_json(db)})
+            elif u < 0.9:
+                ls = lines_of(fresh_rows(rng.choice([1, 2, 5])), endmdl=rng.choice([0, 0, 0, 1, 2]))
+                elems_py.append(ls)
+                elems_j.append({'lines': ls})
+            elif u < 0.95:
+                elems_py.append([])              # an empty list of lines: IndexError in read_pdb
+                elems_j.append({'lines': []})
+            else:
+                elems_py.append(3.5)             # not PDB data: ValueError in read_pdb
+                elems_j.append({'other': True})
+        v = rng.random()
+        if v < 0.4:
+            tn_py, tn_j = None, None
+        elif v < 0.75:
+            tn_py = rng.sample(['wildtype', 'mutant', 'apo', 'Zeta', 'b2', 'ATOM9', 'model_10', 'holo', 'a-b', 'x.y'], npdb + rng.choice([0, 0, 1]))
+            if npdb >= 2 and rng.random() < 0.5:
+                # a name that exists already: the same name, another letter case, or equal only after the clean-up of _create_table
+                # (sqlite3.OperationalError `table ... already exists`, raised when the LATER table is created)
+                i = rng.randrange(npdb - 1)
+                j = rng.randrange(i + 1, npdb)
+                tn_py[j] = rng.choice([tn_py[i], tn_py[i].upper(), tn_py[i].swapcase(), tn_py[i].replace('-', '_').replace('.', '+')])
+            tn_j = list(tn_py)
+        elif v < 0.8:
+            tn_py = rng.sample(['wildtype', 'mutant', 'apo'], max(0, npdb - 1))      # too few names: IndexError
+            tn_j = list(tn_py)
+        elif v < 0.9:
+            tn_py = ['t%d' % i for i in range(npdb)]
+            j = rng.randrange(npdb)
+            tn_py[j] = rng.choice([3, None, 2.5])                                   # not a str: TypeError
+            tn_j = [x if isinstance(x, str) else {'other': True} for x in tn_py]
+        else:
+            tn_py, tn_j = rng.choice([('a', 'b'), 'names', 7]), {'other': True}      # not a list: TypeError
+        pf_py, pf_j = elems_py, elems_j
+        if rng.random() < 0.08:
+            name, f = rng.choice(BAD)
+            pf_py, pf_j = f(elems_py), ({'other': True} if name != 'none' else None)
+        case = {'pdbfiles': pf_j, 'tablenames': tn_j}
+        if tn_py is None and rng.random() < 0.5:
+            add('genm_init', case, lambda: many2sql(pf_py))
+        else:
+            add('genm_init', case, lambda: many2sql(pf_py, tablenames=tn_py))
+    # user-given table names on database objects: real code = generated function = HAND model (Model.manyNamed, driver op model_many_named)
+    named_lines, named_real = [], []
+    POOLN = ['wildtype', 'mutant', 'apo', 'Zeta', 'b2', 'ATOM9', 'model_10', 'holo', 'a-b', 'x.y', 'A_b', 'q+r']
+    for k in range(ctx.scale(40, 300)):
+        npdb = rng.choice([1, 2, 2, 3, 3, 4])
+        dbs = [make_obj(rng.choice([0, 1, 3, 5]) if rng.random() < 0.15 else rng.choice([1, 3, 5])) for _ in range(npdb)]
+        names = rng.sample(POOLN, npdb)
+        u = rng.random()
+        if u < 0.35 and npdb >= 2:
+            i = rng.randrange(npdb - 1)
+            j = rng.randrange(i + 1, npdb)
+            names[j] = rng.choice([names[i], names[i].upper(), names[i].swapcase(), names[i].replace('-', '_').replace('.', '+').replace('+', '.')])
+        elif u < 0.5:
+            names = names[:rng.randrange(0, npdb)]                     # fewer names than structures
+        elif u < 0.6:
+            names = names + rng.sample(POOLN, 1)                       # a surplus name is never looked at
+        r = call(lambda: many2sql(list(dbs), tablenames=list(names)))
+        named_real.append(r if is_err(r) else observe_db(r))
+        sj = [src_json(d) for d in dbs]
+        named_lines.append({'op': 'model_many_named', 'srcs': sj, 'names': names})
+        named_lines.append({'op': 'genm_init', 'pdbfiles': [{'obj': x} for x in sj], 'tablenames': names})
+    # sub-selections of many2sql objects
+    n_call = ctx.scale(40, 300)
+    for k in range(n_call):
+        ns = rng.choice([1, 2, 3])
+        tabs = [fresh_rows(rng.choice([2, 4, 7])) for _ in range(ns)]
+        names = None if rng.random() < 0.5 else rng.sample(['wildtype', 'mutant', 'apo', 'Zeta', 'b2'], ns)
+        src = call(lambda: many2sql([[B.atom_line(r) for r in t] for t in tabs]) if names is None else
+                   many2sql([[B.atom_line(r) for r in t] for t in tabs], tablenames=list(names)))
+        if is_err(src):
+            continue
+        for _ in range(3):
+            kws = [H.same_type_cond(rng, tabs[0], len(tabs[0]), []) for _ in range(rng.choice([0, 1, 1, 2]))]
+            if len(set(x for x, _ in kws)) < len(kws):
+                kws = kws[:1]
+            kws = [(a, b) for a, b in kws if (a[3:] if a.startswith('no_') else a) in COLNAMES]
+            if rng.random() < 0.4:
+                present = sorted(set(r[4] for t in tabs for r in t))
+                kws = [(rng.choice(['chainID', 'no_chainID']), rng.sample(present, rng.randrange(1, len(present) + 1)))]
+            add('genm_call', {'db': src_json(src), 'kw': jkw(kws)}, lambda: src(**kw_py(jkw(kws))))
+    # interface(...) and convert_input
+    n_if = ctx.scale(40, 300)
+    for k in range(n_if):
+        u = rng.random()
+        tn = rng.choice([None, None, 'atom', 'ATOM', 'mine'])
+        if u < 0.6:
+            db = make_obj(rng.choice([1, 3, 6]))
+            pj, pp = {'obj': src_json(db)}, db
+        elif u < 0.9:
+            ls = lines_of(fresh_rows(rng.choice([1, 4])), endmdl=rng.choice([0, 0, 1]))
+            pj, pp = {'lines': ls}, ls
+        else:
+            pj, pp = {'other': True}, 12
+        case = {'pdb': pj}
+        if tn is not None:
+            case['tablename'] = tn
+            add('genm_interface_init', case, lambda: interface(pp, tablename=tn))
+        else:
+            add('genm_interface_init', case, lambda: interface(pp))
+        if k % 3 == 0:
+            host = call(lambda: many2sql([[B.atom_line(r) for r in fresh_rows(2)]]))
+            r = call(lambda: host.convert_input(pp))
+            real.append(r if is_err(r) else ({'lines': list(r)} if isinstance(r, list) and all(isinstance(x, str) for x in r) else {'other': None}))
+            lines.append({'op': 'genm_convert_input', 'pdb': pj})
+            meta.append('genm_convert_input')
+    ans = vlib.run_driver(lines + named_lines, which='model', cluster=CLUSTER) if lines else []
+    ans, named_ans = ans[:len(lines)], ans[len(lines):]
+    res = []
+    bad, outcomes = None, {}
+    for k, r in enumerate(named_real):
+        hm, gm = of_driver(named_ans[2 * k].get('model')), of_driver(named_ans[2 * k + 1].get('model'))
+        tag = r if is_err(r) else 'ok'
+        outcomes[tag] = outcomes.get(tag, 0) + 1
+        if isinstance(hm, str) and hm.startswith('ERR:UNMODELLED'):
+            continue
+        if not (r == hm == gm) and bad is None:
+            bad = {'case': json_short(named_lines[2 * k]), 'real code': short(r), 'hand model (Model.manyNamed)': short(hm), 'generated (Gen/Many.lean)': short(gm)}
+    res.append({'name': f'many2sql([db, ...], tablenames=[...]): real code = hand model Model.manyNamed = generated function on {len(named_real)} inputs, outcomes {dict(sorted(outcomes.items()))}',
+                'ok': bad is None and len(named_real) >= 30 and outcomes.get('ERR:Other:OperationalError', 0) >= 2 and outcomes.get('ERR:IndexError', 0) >= 2,
+                'case': bad, 'detail': 'names as given after the clean-up; an existing name (same / other letter case / equal after the clean-up) = sqlite3.OperationalError; '
+                                       'fewer names than structures = IndexError; surplus names ignored', 'kind': 'genm'})
+    for opname, label, floor in (('genm_init', 'many2sql.__init__', 40), ('genm_call', 'many2sql.__call__', 40),
+                                 ('genm_interface_init', 'interface.__init__', 30), ('genm_convert_input', 'many2sql.convert_input', 8)):
+        bad, n, disc, nerr, nexist = None, 0, 0, 0, 0
+        for ln, r, a, o in zip(lines, real, ans, meta):
+            if o != opname:
+                continue
+            g = a.get('model')
+            if isinstance(g, str) and g.startswith('ERR:UNMODELLED'):
+                disc += 1
+                continue
+            n += 1
+            nerr += 1 if is_err(r) else 0
+            nexist += 1 if r == 'ERR:Other:OperationalError' else 0
+            g = of_driver(g) if opname != 'genm_convert_input' else g
+            if g != r and bad is None:
+                bad = {'case': json_short(ln), 'real code': short(r), 'generated (Gen/Many.lean)': short(g)}
+        extra = f', {nexist} of them sqlite3.OperationalError for a table name that exists already' if opname == 'genm_init' else ''
+        res.append({'name': f'{label}: real code = generated function on {n} inputs ({nerr} raising{extra}, {disc} outside the model)', 'ok': bad is None and n >= floor,
+                    'case': bad, 'detail': 'implementation = generated (tables, names, _nModel, exception class)', 'kind': 'genm'})
+    return res
+
+
+def json_short(x, n=1500):
+    import json as _json
+    s = _json.dumps(x)
+    return x if len(s) <= n else s[:n] + '...'
+
+
+_manyTie_prev_extra_checks = globals().get('extra_checks')
+
+
+def extra_checks(ctx):                  # noqa: F811  (extends the definition above, if there is one; its results come first, unchanged)
+    return (_manyTie_prev_extra_checks(ctx) if _manyTie_prev_extra_checks else []) + genm_many_checks(ctx)
+# ======================================================================================================================
+# END manyTie
+# ======================================================================================================================
+
+
+# ======================================================================================================================
+# BEGIN parseTie: translated `pdb2sql.__init__` / `pdb2sql.__call__` (Gen/ParseLoop.lean) against the real code
+# ======================================================================================================================
+GEN_UNITS = GEN_UNITS + ['parse_runtime', 'parse_read_pdb', 'parse_create_table', 'parse_init', 'parse_call']
+EXTRA_TARGETS = list(globals().get('EXTRA_TARGETS', [])) + ['PdbVerif.Driver.MainA']     # the generated functions are run by the cluster-A driver
+
+
+def genp_init_call_checks(ctx):
+    """implementation = generated.  `__init__`: the order of `_create_sql`, the cursor statements of `_create_table` and `_fix_chainID`
+    (recorded by overriding / wrapping them) with and without the option, against `GenP.init`.  `__call__`: the new object `db(**kw)`
+    REALLY is (table name, rows through its own connection, `_nModel`, options) against `GenP.call` given the table names and the
+    lines `sql2pdb(tablename=names[0], **kw)` returns on the source."""
+    import vlib
+    from props.c01 import canon_rows, same_rows
+    rng = ctx.rng
+    out = []
+
+    def record_init(lines, tablename, fix):
+        log = []
+
+        class Proxy:
+            def __init__(self, real):
+                self._real = real
+
+            def execute(self, q, *a):
+                log.append({'execute': q})
+                return self._real.execute(q, *a)
+
+            def executemany(self, q, data):
+                data = [tuple(r) for r in data]
+                if q.startswith('INSERT'):
+                    log.append({'executemany': q, 'rows': canon_rows(data)})
+                return self._real.executemany(q, data)
+
+            def __getattr__(self, k):
+                return getattr(self._real, k)
+
+        class Rec(pdb2sql):
+            def _create_sql(self, *a, **k):
+                log.append({'method': '_create_sql'})
+                pdb2sql._create_sql(self, *a, **k)
+                self.c = Proxy(self.c)
+
+            def _fix_chainID(self):
+                log.append({'method': '_fix_chainID'})
+                keep = list(log)
+                try:
+                    return pdb2sql._fix_chainID(self)      # what it does (and raises) is compared in C04; here: THAT and WHEN it is called
+                except BaseException:
+                    return None
+                finally:
+                    log[:] = keep                  # the statements of `get` / `update_column` inside are not `__init__`'s own
+        r = call(lambda: Rec(lines, tablename=tablename, fix_chainID=fix))
+        if is_err(r):
+            return r
+        n = r._nModel
+        call(lambda: r._close())
+        return {'fx': log, 'nModel': n}
+
+    def same_fx(real, gen):
+        if isinstance(real, str) or isinstance(gen, str):
+            return real == gen
+        g = [f for f in gen['fx'] if f.get('method') != 'super().__init__']      # the base-class initialiser is not observable
+        if real['nModel'] != gen['nModel'] or len(real['fx']) != len(g):
+            return False
+        for a, b in zip(real['fx'], g):
+            if set(a) != set(b):
+                return False
+            if 'rows' in a:
+                if a['executemany'] != b['executemany'] or not same_rows(a['rows'], b['rows']):
+                    return False
+            elif a != b:
+                return False
+        return True
+
+    # ---- __init__
+    cs, lines_d, reals = [], [], []
+    for k in range(ctx.scale(12, 400)):
+        rows = rand_table(rng, rng.choice([1, 2, 3, 6, 10]), rng.choice([0, 0, 0, 2]))
+        plines, _ = B.pdb_lines(rows)
+        fix = k % 2 == 0
+        tn = rng.choice(['atom', 'ATOM', 'a-b', 'x.y'])
+        if fix and tn not in ('atom', 'ATOM'):
+            tn = 'atom'                          # `_fix_chainID` reads the table ATOM
+        reals.append(record_init(list(plines), tn, fix))
+        lines_d.append({'op': 'gen_init', 'form': 'listStr', 'arg': list(plines), 'tablename': tn, 'fix_chainID': fix})
+    init_lines, init_reals = lines_d, reals
+    # ---- __call__ (its driver lines go through the same driver run)
+    lines_d, reals = [], []
+    ncall = ctx.scale(20, 600)
+    for k in range(ncall + 1):
+        rows = start_table(rng, rng.choice([1, 2, 4, 8, 12]))
+        src_fix = rng.random() < 0.3
+        db = call(lambda: build(rows, fix_chainID=src_fix))
+        if is_err(db):
+            continue
+        sel = rng.choice([{}, {}, {'chainID': rng.choice(['A', 'B', 'X'])}, {'name': ['CA', 'N']}, {'no_resName': ['ALA']},
+                          {'chainID': 'nochain'}, {'resSeq': [1, 2, 3]}])
+        if k == ncall:
+            sel = {'chainID': 'nochain'}             # one empty selection in every run
+        names = call(lambda: db._get_table_names())
+        exported = call(lambda: db.sql2pdb(tablename=names[0], **sel))
+        new = call(lambda: db(**sel))
+        if is_err(new):
+            real = new
+        else:
+            nn = new._get_table_names()
+            real = {'names': nn, 'rows': canon_rows([list(r) for r in new.c.execute(f'select * from {nn[0]}')]), 'nModel': new._nModel,
+                    'fix': bool(new.fix_chainID)}
+            call(lambda: new._close())
+        call(lambda: db._close())
+        reals.append(real)
+        d = {'op': 'gen_call', 'names': names}
+        if not is_err(exported):
+            d['lines'] = list(exported)
+        lines_d.append(d)
+    all_ans = vlib.run_driver(init_lines + lines_d, which='model', cluster='A')
+    ans, call_ans = all_ans[:len(init_lines)], all_ans[len(init_lines):]
+    bad, nfixed = None, 0
+    for line, real, a in zip(init_lines, init_reals, ans):
+        g = a.get('model')
+        nfixed += bool(line['fix_chainID'] and not isinstance(real, str))
+        if a.get('driver_error') or not same_fx(real, g):
+            bad = bad or {'line': short(line), 'real': short(real), 'generated': short(g if not a.get('driver_error') else a)}
+    out.append({'name': f'gen:__init__ order of _create_sql / _create_table statements / _fix_chainID = implementation ({len(init_lines)} inputs, {nfixed} with the option)',
+                'ok': bad is None and nfixed > 3, 'case': bad, 'detail': 'GenP.init (translated on this run)', 'kind': 'gen-init'})
+
+    ans = call_ans
+    bad, nok, nempty = None, 0, 0
+    for line, real, a in zip(lines_d, reals, ans):
+        g = a.get('model')
+        if a.get('driver_error'):
+            bad = bad or {'line': short(line), 'generated': short(a)}
+            continue
+        if isinstance(g, str) and g.startswith('ERR:UNMODELLED'):
+            continue
+        if isinstance(real, str) or isinstance(g, str):
+            same = real == g
+            nempty += real == 'ERR:IndexError'
+        else:
+            fx = g['fx']
+            ins = [f for f in fx if 'executemany' in f]
+            cre = [f for f in fx if 'execute' in f and 'rows' not in f]
+            same = (len(ins) == 1 and len(cre) == 1 and cre[0]['execute'].startswith('CREATE TABLE ' + real['names'][0] + ' (')
+                    and len(real['names']) == 1 and same_rows(real['rows'], ins[0]['rows']) and real['nModel'] == g['nModel']
+                    and not real['fix'] and not any(f.get('method') == '_fix_chainID' for f in fx))
+            nok += 1
+        if not same:
+            bad = bad or {'line': short(line), 'real': short(real), 'generated': short(g)}
+    out.append({'name': f'gen:__call__ new object (table name, rows, _nModel, default options) = implementation ({len(lines_d)} derivations: {nok} new objects, {nempty} empty selections)',
+                'ok': bad is None and nok > 5 and nempty > 0, 'case': bad, 'detail': 'GenP.call (translated on this run), `sql2pdb` output as a parameter',
+                'kind': 'gen-call'})
+    return out
+
+
+_parseTie_prev_extra_checks = globals().get('extra_checks')
+
+
+def extra_checks(ctx):                  # noqa: F811  (extends the definition above; its results come first, unchanged)
+    return (_parseTie_prev_extra_checks(ctx) if _parseTie_prev_extra_checks else []) + genp_init_call_checks(ctx)
+# ======================================================================================================================
+# END parseTie
+# ======================================================================================================================
